@@ -107,11 +107,15 @@ Fixpoint build_blocks (fuel : nat) (s : store) (start_index : Z) (ts : list posi
 Definition empty_store (sid : positive) (tk : tokmap) : store :=
   mkstore sid [1%positive] (PositiveMap.add 1%positive blk0 (PositiveMap.empty blk)) tk 0 2%positive.
 
-(* TokenStore.from_tokens *)
+Fixpoint has_dup (l : list positive) : bool :=
+  match l with [] => false | x :: r => existsb (Pos.eqb x) r || has_dup r end.
+
+(* TokenStore.from_tokens: tokens already in a store and a token listed twice are refused *)
 Definition from_tokens (sid : positive) (tk : tokmap) (ts : list positive) : store * res unit :=
   let s := empty_store sid tk in
   if existsb (fun t => match t_handle (tget tk t) with Some _ => true | None => false end) ts
   then (s, Err ValueError)
+  else if has_dup ts then (s, Err ValueError)
   else match ts with
        | [] => (s, Ok tt)
        | _ => match build_blocks (length ts) s 0 ts with
@@ -219,8 +223,6 @@ Definition sum_lines (tk : tokmap) (ts : list positive) : Z :=
   fold_left (fun acc t => acc + line (t_size (tget tk t))) ts 0.
 
 (* len({id(token) for token in tokens}) != len(tokens) *)
-Fixpoint has_dup (l : list positive) : bool :=
-  match l with [] => false | x :: r => existsb (Pos.eqb x) r || has_dup r end.
 
 (* _splice(tokens, start, end): `end < start` and a token listed twice are refused first; then the reuse guard
      token.store_handle is not None and not (block.store is self and start <= (block.index, index) < end) *)
@@ -400,6 +402,7 @@ Definition iter_range (s : store) (a b : positive) : res (list positive) :=    (
   | _, Err e => Err e
   | Ok (ba, ia), Ok (bb, ib) =>
     if Pos.eqb ba bb then Ok (zfirstn (ib + 1 - ia) (zskipn ia (b_toks (bget (s_heap s) ba))))
+    else if b_index (bget (s_heap s) bb) <? b_index (bget (s_heap s) ba) then Ok []   (* start in a later block *)
     else
       let ra := bget (s_heap s) ba in
       let rb := bget (s_heap s) bb in
